@@ -78,6 +78,9 @@ struct GlyphSpec {
     /// explicit public.verticalOrigin per defining master
     vorigin: Vec<Option<f64>>,
     style: &'static str,
+    /// a composite the compiler must decompose per master: it repeats a base with different 2x2 transforms and
+    /// lists the components in a different order in some master, or its 2x2 differs between masters
+    decompose: bool,
 }
 
 #[derive(Clone, Debug)]
@@ -350,7 +353,76 @@ fn gen_glyph(rng: &mut Rng, case: &Case, name: &str, kind: GKind, masters: Vec<u
     let _ = nm;
     let style = match implied_mode { 1 => "implied-everywhere", 2 => "implied-somewhere", _ => style };
     let style = if kind == GKind::Composite && !draw[0].contours.is_empty() { "mixed-outline-and-components" } else { style };
-    GlyphSpec { name: name.into(), kind, masters, draw, vorigin, style }
+    GlyphSpec { name: name.into(), kind, masters, draw, vorigin, style, decompose: false }
+}
+
+
+/// A composite fontbe cannot keep: component i of the default is not component i of every master.
+/// "reordered": the same base twice (or three times) with different 2x2 transforms, listed in another order in
+/// some non-default master (the SET of (base, 2x2) pairs is the same everywhere); "varying-2x2": a component whose
+/// scale differs between masters. The correct compiler decomposes such a glyph master by master, in each master's
+/// own component order.
+fn gen_decomposing_composite(rng: &mut Rng, case: &Case, name: &str, masters: Vec<usize>, bases: &[String]) -> GlyphSpec {
+    let reordered = rng.chance(2, 3);
+    let b = rng.pick(bases).clone();
+    let scales: Vec<[f64; 4]> = vec![[1.0, 0.0, 0.0, 1.0], [0.5, 0.0, 0.0, 0.5], [0.75, 0.0, 0.0, 0.75], [0.5, 0.0, 0.0, 1.0]];
+    let ncomp = if reordered { rng.range(2, 3) as usize } else { rng.range(1, 2) as usize };
+    // distinct 2x2 per component
+    let mut ts: Vec<[f64; 4]> = scales.clone();
+    rng.shuffle(&mut ts);
+    ts.truncate(ncomp);
+    let offs: Vec<(f64, f64)> = (0..ncomp).map(|i| (rng.range(-50, 200) as f64 + 450.0 * i as f64, rng.range(-100, 200) as f64)).collect();
+    let mut draw = Vec::new();
+    let mut vorigin = Vec::new();
+    let adv0 = rng.range(600, 1500) as f64;
+    let mut any_change = false;
+    for (mi, _) in masters.iter().enumerate() {
+        let last = mi + 1 == masters.len();
+        let mut g = GlyphSrc::new(name, adv0 + if mi == 0 { 0.0 } else { rng.range(-60, 120) as f64 });
+        let mut comps: Vec<(String, [f64; 6])> = (0..ncomp)
+            .map(|i| {
+                let o = if mi == 0 { offs[i] } else { (offs[i].0 + rng.range(-40, 60) as f64 + frac(rng), offs[i].1 + rng.range(-40, 60) as f64 + frac(rng)) };
+                let mut t = ts[i];
+                if !reordered && mi > 0 && i == 0 && (rng.chance(1, 2) || (last && !any_change)) {
+                    // another scale in this master
+                    t = *scales.iter().find(|s| **s != ts[i]).unwrap();
+                    any_change = true;
+                }
+                (b.clone(), [t[0], t[1], t[2], t[3], o.0, o.1])
+            })
+            .collect();
+        if reordered && mi > 0 && (rng.chance(1, 2) || (last && !any_change)) {
+            comps.reverse();
+            any_change = true;
+        }
+        g.components = comps;
+        if case.vertical {
+            g.height = Some(1000.0);
+            vorigin.push(Some(ASC + 80.0));
+        } else {
+            vorigin.push(None);
+        }
+        draw.push(g);
+    }
+    GlyphSpec { name: name.into(), kind: GKind::Composite, masters, draw, vorigin, style: if reordered { "components-reordered" } else { "components-2x2-varies" }, decompose: true }
+}
+
+/// the drawing of a to-be-decomposed composite at its master `mi`, decomposed here: every component's base as that
+/// master draws it, through the component's 2x2 and offset, in that master's component order
+fn flat_draw(case: &Case, g: &GlyphSpec, mi: usize) -> GlyphSrc {
+    let m = g.masters[mi];
+    let d = &g.draw[mi];
+    let mut out = GlyphSrc::new(&g.name, d.advance);
+    out.height = d.height;
+    out.contours = d.contours.clone();
+    for (b, t) in &d.components {
+        let bg = case.glyphs.iter().find(|x| &x.name == b).expect("base exists");
+        let bi = bg.masters.iter().position(|x| *x == m).expect("base is drawn at every master of the composite");
+        for c in &bg.draw[bi].contours {
+            out.contours.push(c.iter().map(|(x, y, ty)| (t[0] * x + t[2] * y + t[4], t[1] * x + t[3] * y + t[5], ty.clone())).collect());
+        }
+    }
+    out
 }
 
 fn gen_case(rng: &mut Rng, id: usize, glyphs_source: bool) -> Case {
@@ -519,6 +591,24 @@ fn gen_case(rng: &mut Rng, id: usize, glyphs_source: bool) -> Case {
             case.glyphs.push(g);
         }
     }
+    // a composite that has to be decomposed (components reordered / 2x2 varying between masters), over a base that is
+    // drawn at every master of the composite; its masters: the full ones and the sparse ones the base has
+    if case.masters.len() > 1 && rng.chance(2, 5) {
+        let cands: Vec<String> = case.glyphs.iter().filter(|g| matches!(g.kind, GKind::Line | GKind::Quad | GKind::Cubic) && full.iter().all(|m| g.masters.contains(m))).map(|g| g.name.clone()).collect();
+        if !cands.is_empty() {
+            let b = rng.pick(&cands).clone();
+            let bm = case.glyphs.iter().find(|g| g.name == b).unwrap().masters.clone();
+            let mut ms = full.clone();
+            for sp in &sparse {
+                if bm.contains(sp) && rng.chance(1, 2) {
+                    ms.push(*sp);
+                }
+            }
+            ms.sort();
+            let g = gen_decomposing_composite(rng, &case, "m", ms, &[b]);
+            case.glyphs.push(g);
+        }
+    }
     // every sparse master must define at least one glyph
     for s in &sparse {
         if !case.glyphs.iter().any(|g| g.masters.contains(s)) {
@@ -540,11 +630,12 @@ fn user(ax: &AxisSpec, k: i64) -> f64 {
     (ax.def + k * ax.unit) as f64
 }
 
-fn master_glyphs(case: &Case, m: usize) -> Vec<(GlyphSrc, Option<f64>)> {
+/// `alone`: for the master's own static build, where a to-be-decomposed composite is drawn decomposed
+fn master_glyphs(case: &Case, m: usize, alone: bool) -> Vec<(GlyphSrc, Option<f64>)> {
     let mut v = Vec::new();
     for g in &case.glyphs {
         if let Some(i) = g.masters.iter().position(|x| *x == m) {
-            v.push((g.draw[i].clone(), g.vorigin[i]));
+            v.push((if alone && g.decompose { flat_draw(case, g, i) } else { g.draw[i].clone() }, g.vorigin[i]));
         }
     }
     v
@@ -593,7 +684,7 @@ fn variable_design(case: &Case) -> Design {
         if case.point_axis {
             ms.location.push(("Italic".into(), 0.0));
         }
-        ms.glyphs = master_glyphs(case, mi).into_iter().map(|(g, _)| g).collect();
+        ms.glyphs = master_glyphs(case, mi, false).into_iter().map(|(g, _)| g).collect();
         if m.sparse {
             ms.layer_of = Some(case.masters[0].name.clone());
         }
@@ -610,7 +701,7 @@ fn write_variable(case: &Case, dir: &std::path::Path) -> std::path::PathBuf {
     let p = d.write_designspace(dir);
     if case.vertical {
         for (mi, m) in case.masters.iter().enumerate() {
-            let gl = master_glyphs(case, mi);
+            let gl = master_glyphs(case, mi, false);
             let ufo = dir.join(Design::ufo_name(&d.masters[if m.sparse { 0 } else { mi }]));
             let layer = if m.sparse { ufo.join(format!("glyphs.L{}", mi)) } else { ufo.join("glyphs") };
             patch_vorigin(&layer, &gl);
@@ -621,7 +712,7 @@ fn write_variable(case: &Case, dir: &std::path::Path) -> std::path::PathBuf {
 
 /// the master alone: its own glyphs (+ the default master's drawing of a component base it lacks)
 fn write_static(case: &Case, m: usize, dir: &std::path::Path) -> std::path::PathBuf {
-    let mut gl = master_glyphs(case, m);
+    let mut gl = master_glyphs(case, m, true);
     let have: BTreeSet<String> = gl.iter().map(|(g, _)| g.name.clone()).collect();
     let mut need: Vec<String> = Vec::new();
     for (g, _) in &gl {
@@ -725,7 +816,12 @@ fn glyphs_text(case: &Case, only: Option<usize>) -> String {
                 let di = g.masters.iter().position(|x| *x == m);
                 // a component base the master lacks is borrowed from the default master
                 let needed = case.glyphs.iter().any(|c| c.masters.contains(&m) && c.draw[0].components.iter().any(|(b, _)| *b == g.name));
+                let flat;
                 let d = match di {
+                    Some(i) if g.decompose => {
+                        flat = flat_draw(case, g, i);
+                        Some(&flat)
+                    }
                     Some(i) => Some(&g.draw[i]),
                     None if needed => Some(&g.draw[0]),
                     None => None,
@@ -1125,6 +1221,38 @@ fn skrifa_draw(font: &FontRef, gid: u32, coords: &[F2Dot14]) -> Result<Vec<Vec<(
     Ok(pen.contours)
 }
 
+
+/// the outline a composite's instance draws: every component's own instance at the location through the stored 2x2,
+/// shifted by the instantiated offset (simple glyphs: the instance's contours)
+fn flatten_instance(vf: &FontObs, obs: &GlyphObs, inst_pts: &[(f64, f64)], ql: &[f64], vertical: bool) -> Vec<Vec<(f64, f64, bool)>> {
+    let simple_contours = |o: &GlyphObs, pts: &[(f64, f64)]| -> Vec<Vec<(f64, f64, bool)>> {
+        match &o.shape {
+            Shape::Simple { pts: p, ends } => {
+                let on: Vec<bool> = p.iter().map(|q| q.2).collect();
+                split_contours(pts, &on, ends)
+            }
+            _ => vec![],
+        }
+    };
+    match &obs.shape {
+        Shape::Composite { comps } => {
+            let mut all = Vec::new();
+            for (ci, (bg, _, t)) in comps.iter().enumerate() {
+                let bo = &vf.glyphs[*bg as usize];
+                let bb = base_points(bo, vertical);
+                let bt = |ti: usize| -> Vec<(f64, f64, f64)> { bo.tuples[ti].tents.iter().map(|t| (t.0 as f64 / 16384.0, t.1 as f64 / 16384.0, t.2 as f64 / 16384.0)).collect() };
+                let bi = instantiate(bo, &bb, &bt, ql);
+                let (dx, dy) = inst_pts[ci];
+                for c in simple_contours(bo, &bi.pts) {
+                    all.push(c.iter().map(|p| (t[0] * p.0 + t[2] * p.1 + dx, t[1] * p.0 + t[3] * p.1 + dy, p.2)).collect());
+                }
+            }
+            all
+        }
+        _ => simple_contours(obs, inst_pts),
+    }
+}
+
 fn split_contours(pts: &[(f64, f64)], on: &[bool], ends: &[usize]) -> Vec<Vec<(f64, f64, bool)>> {
     let mut out = Vec::new();
     let mut s = 0;
@@ -1451,9 +1579,80 @@ fn run_case(case: &Case, debug: bool) -> Out {
         let mut seqs: Vec<Vec<(i64, i64)>> = Vec::new();
         let mut structure_ok = true;
         let is_comp = matches!(obs.shape, Shape::Composite { .. });
-        let expect_comp = g.kind == GKind::Composite && g.draw[0].contours.is_empty();
+        let expect_comp = g.kind == GKind::Composite && g.draw[0].contours.is_empty() && !g.decompose;
+        if g.kind == GKind::Composite {
+            // the model's decision (positional consistency of base and 2x2, no outline of its own) against glyf
+            let fq4 = |v: f64| -> String {
+                let n = (v * 4.0).round() as i64;
+                if n % 4 == 0 { format!("{}", cz(n / 4)) } else { format!("({} # 4)", cz(n)) }
+            };
+            let srcs: Vec<String> = g
+                .draw
+                .iter()
+                .map(|d| {
+                    format!(
+                        "[{}]",
+                        d.components
+                            .iter()
+                            .map(|(b, t)| format!("({}%N,({},{},{},{}))", case.glyphs.iter().position(|x| &x.name == b).unwrap_or(99), fq4(t[0]), fq4(t[1]), fq4(t[2]), fq4(t[3])))
+                            .collect::<Vec<_>>()
+                            .join(";")
+                    )
+                })
+                .collect();
+            let term = format!("check_kept {} {} ([{}]%Q)", is_comp, !g.draw[0].contours.is_empty(), srcs.join(";"));
+            out.lines.push(json!({"type":"case","id":0,"kind":format!("decision:{}", if expect_comp { "kept-composite" } else { "decomposed" }),"coq":term,"nontrivial":g.masters.len() > 1,
+                "sig": format!("{}:{}:decision:{}", case.id, g.name, srcs.join("|")), "font": case.id, "glyph": g.name, "masters": g.masters.len(), "style": g.style}));
+        }
+        if !expect_comp && is_comp && g.decompose {
+            // The glyph was kept as a composite although component i of the default is not component i of every
+            // master. Is the drawing nevertheless the master's? Flatten the instance (components' own instances
+            // through the stored 2x2 and the instantiated offsets) and compare with the master's static build, which
+            // is drawn decomposed. Slack: the static build rounds T*p + offset once, the composite rounds p and the
+            // offset separately: (|xx|+|xy|)/2 + 1/2 <= 1.5 on top of the bound.
+            for (_mi, &m) in g.masters.iter().enumerate() {
+                let ms = &case.masters[m];
+                let Some(sf) = statics[m].as_ref() else { continue };
+                let Some(sgid) = sf.names.iter().position(|nm| *nm == g.name) else { continue };
+                let Shape::Simple { pts: sp, ends: se } = &sf.glyphs[sgid].shape else { continue };
+                let coords: Vec<F2Dot14> = ms.loc.iter().map(|k| F2Dot14::from_f64(*k as f64 / case.d as f64)).collect();
+                let ql: Vec<f64> = coords.iter().map(|c| c.to_bits() as f64 / 16384.0).collect();
+                let qt = |ti: usize| -> Vec<(f64, f64, f64)> { obs.tuples[ti].tents.iter().map(|t| (t.0 as f64 / 16384.0, t.1 as f64 / 16384.0, t.2 as f64 / 16384.0)).collect() };
+                let inst = instantiate(obs, &base, &qt, &ql);
+                let flat = flatten_instance(&vf, obs, &inst.pts, &ql, case.vertical);
+                let spts: Vec<(f64, f64)> = sp.iter().map(|q| (q.0 as f64, q.1 as f64)).collect();
+                let son: Vec<bool> = sp.iter().map(|q| q.2).collect();
+                let want: Vec<Vec<(f64, f64, bool)>> = split_contours(&spts, &son, se).iter().map(|c| drop_repeats(&explicit_cycle(c))).collect();
+                let got: Vec<Vec<(f64, f64, bool)>> = flat.iter().map(|c| drop_repeats(&explicit_cycle(c))).collect();
+                let mut worst: Option<f64> = Some(0.0);
+                if want.len() != got.len() {
+                    worst = None;
+                } else {
+                    for (x, y) in got.iter().zip(&want) {
+                        match (worst, cycle_distance(x, y)) {
+                            (Some(w), Some(dd)) => worst = Some(w.max(dd)),
+                            _ => worst = None,
+                        }
+                    }
+                }
+                let bound = 0.5 + 0.5 * inst.active + 1.5;
+                if worst.map(|w| w > bound).unwrap_or(true) {
+                    out.viol(
+                        "outline-at-master-differs-from-master-drawing",
+                        format!(
+                            "glyph {} ({}) was kept as a composite; at master {} {:?}/{} its instance draws {:?}, the master draws {:?} (largest coordinate difference {:?}, allowed {})",
+                            g.name, g.style, ms.name, ms.loc, case.d, got, want, worst, bound
+                        ),
+                        case,
+                        json!({"glyph": g.name, "master": m, "master_name": ms.name, "components": g.draw.iter().map(|d| d.components.iter().map(|(b, t)| json!([b, t])).collect::<Vec<_>>()).collect::<Vec<_>>()}),
+                    );
+                    break;
+                }
+            }
+            continue;
+        }
         if expect_comp != is_comp {
-            out.viol("glyph-kind-changed", format!("glyph {} is {:?} in the source, {} in glyf", g.name, g.kind, if is_comp { "composite" } else { "not composite" }), case, json!({"glyph": g.name}));
+            out.viol("glyph-kind-changed", format!("glyph {} ({}) is {:?} in the source, {} in glyf", g.name, g.style, g.kind, if is_comp { "composite" } else { "not composite" }), case, json!({"glyph": g.name}));
             continue;
         }
         for (mi, &m) in g.masters.iter().enumerate() {
@@ -1629,32 +1828,7 @@ fn run_case(case: &Case, debug: bool) -> Out {
             {
                 match skrifa_draw(&vfont, gid as u32, &coords) {
                     Ok(drawn) => {
-                        let simple_contours = |o: &GlyphObs, pts: &[(f64, f64)]| -> Vec<Vec<(f64, f64, bool)>> {
-                            match &o.shape {
-                                Shape::Simple { pts: p, ends } => {
-                                    let on: Vec<bool> = p.iter().map(|q| q.2).collect();
-                                    split_contours(pts, &on, ends)
-                                }
-                                _ => vec![],
-                            }
-                        };
-                        let mine: Vec<Vec<(f64, f64, bool)>> = match &obs.shape {
-                            Shape::Composite { comps } => {
-                                let mut all = Vec::new();
-                                for (ci, (bg, _, t)) in comps.iter().enumerate() {
-                                    let bo = &vf.glyphs[*bg as usize];
-                                    let bb = base_points(bo, case.vertical);
-                                    let bt = |ti: usize| -> Vec<(f64, f64, f64)> { bo.tuples[ti].tents.iter().map(|t| (t.0 as f64 / 16384.0, t.1 as f64 / 16384.0, t.2 as f64 / 16384.0)).collect() };
-                                    let bi = instantiate(bo, &bb, &bt, &ql);
-                                    let (dx, dy) = inst.pts[ci];
-                                    for c in simple_contours(bo, &bi.pts) {
-                                        all.push(c.iter().map(|p| (t[0] * p.0 + t[2] * p.1 + dx, t[1] * p.0 + t[3] * p.1 + dy, p.2)).collect());
-                                    }
-                                }
-                                all
-                            }
-                            _ => simple_contours(obs, &inst.pts),
-                        };
+                        let mine: Vec<Vec<(f64, f64, bool)>> = flatten_instance(&vf, obs, &inst.pts, &ql, case.vertical);
                         let a: Vec<Vec<(f64, f64, bool)>> = mine.iter().map(|c| drop_repeats(&explicit_cycle(c))).filter(|c| c.len() > 1 || mine.len() == 1).collect();
                         let b: Vec<Vec<(f64, f64, bool)>> = drawn.iter().map(|c| drop_repeats(c)).collect();
                         let mut worst: Option<f64> = Some(0.0);
